@@ -1,5 +1,5 @@
 """Small intraprocedural data-flow helpers (flow-insensitive local derivation)."""
-from .facts import kids, strip, walk, is_call, call_args, call_object, render, CASTS
+from .facts import kids, strip, walk, is_call, call_args, call_object, callee, literal, render, CASTS
 
 # calls through which a file name stays "the same name" (or a name in the same name space)
 PATH_PRESERVING = {"occa::io::expandFilename"}
@@ -102,3 +102,113 @@ def plus_chain(n):
     if n is not None and n["k"] == "BinaryOperator" and n.get("op") == "+":
         return plus_chain(kids(n)[0]) + plus_chain(kids(n)[1])
     return [n]
+
+
+# ---- lexicographic comparators --------------------------------------------------------------------
+def lex_keys(fn):
+    """Key sequence of a two-parameter strict-weak-order functor written as a lexicographic comparison.
+    Returns [(component, ascending)] where component is the compared expression with the first parameter spelled `$`
+    (so `$->offset`, and `$` itself for the object identity). Recognised shapes: `if (X != Y) return X < Y;` chains,
+    `if (X < Y) return true; if (Y < X) return false;` pairs, `return X < Y;`, `X < Y || (X == Y && REST)`, std::tie(...) < std::tie(...).
+    Raises ValueError on any other shape (the caller reports analysis-broken, never a verdict)."""
+    ps = fn.d["params"]
+    if len(ps) != 2:
+        raise ValueError("comparator does not take two parameters")
+    da, db = ps[0]["d"], ps[1]["d"]
+
+    def comp(e):
+        """(component string, side) where side is 'a' / 'b' by the parameter it mentions"""
+        sides = {("a" if x.get("d") == da else "b") for x in walk(e) if x["k"] == "DeclRefExpr" and x.get("d") in (da, db)}
+        if len(sides) != 1:
+            raise ValueError("operand mixes both parameters: %s" % render(e, False))
+        side = sides.pop()
+        mine = da if side == "a" else db
+
+        def r(x):
+            x = strip(x)
+            if x["k"] == "DeclRefExpr" and x.get("d") == mine:
+                return "$"
+            if x["k"] == "MemberExpr":
+                return r(kids(x)[0]) + ("->" if x.get("arrow") else ".") + x.get("n", "").split("::")[-1]
+            if x["k"] == "UnaryOperator" and x.get("op") == "*":
+                return "*" + r(kids(x)[0])
+            if is_call(x) and call_object(x) is not None and not call_args(x):
+                return r(call_object(x)) + "." + callee(x).split("::")[-1] + "()"
+            raise ValueError("unrecognised component: %s" % render(x, False))
+        return r(e), side
+
+    def rel(e):
+        """e is `X op Y` over the same component of both parameters -> (component, op with a on the left)"""
+        e = strip(e)
+        if e["k"] not in ("BinaryOperator", "CXXOperatorCallExpr") or e.get("op") not in ("<", ">", "!=", "=="):
+            raise ValueError("not a relational expression: %s" % render(e, False))
+        xs = kids(e)[-2:]
+        (cx, sx), (cy, sy) = comp(xs[0]), comp(xs[1])
+        if cx != cy or sx == sy:
+            raise ValueError("compares different components: %s" % render(e, False))
+        op = e["op"]
+        if sx == "b" and op in ("<", ">"):
+            op = ">" if op == "<" else "<"
+        return cx, op
+
+    def of_expr(e):
+        e = strip(e)
+        if e["k"] == "BinaryOperator" and e.get("op") == "||":
+            l, rr = [strip(x) for x in kids(e)]
+            c, op = rel(l)
+            if op not in ("<", ">") or rr["k"] != "BinaryOperator" or rr.get("op") != "&&":
+                raise ValueError("unrecognised disjunction: %s" % render(e, False))
+            c2, op2 = rel(kids(rr)[0])
+            if c2 != c or op2 != "==":
+                raise ValueError("tie case does not test equality of the same component")
+            return [(c, op == "<")] + of_expr(kids(rr)[1])
+        if e["k"] == "CXXOperatorCallExpr" and e.get("op") in ("<", ">") and all(is_call(strip(x)) and callee(strip(x)).startswith("std::tie") for x in kids(e)[-2:]):
+            l, rr = [strip(x) for x in kids(e)[-2:]]
+            out = []
+            for x, y in zip(call_args(l), call_args(rr)):
+                (cx, sx), (cy, sy) = comp(x), comp(y)
+                if cx != cy or sx == sy:
+                    raise ValueError("std::tie operands differ")
+                out.append((cx, (e["op"] == "<") == (sx == "a")))
+            return out
+        c, op = rel(e)
+        if op not in ("<", ">"):
+            raise ValueError("final comparison is not an ordering")
+        return [(c, op == "<")]
+
+    body = [n for n in kids(fn.d["body"]) if n["k"] != "NullStmt"] if fn.d.get("body") else []
+    keys = []
+    i = 0
+
+    def single_return(s):
+        s = kids(s)[0] if s["k"] == "CompoundStmt" and len(kids(s)) == 1 else s
+        return s if s["k"] == "ReturnStmt" else None
+    while i < len(body):
+        s = body[i]
+        if s["k"] == "ReturnStmt":
+            keys += of_expr(kids(s)[0])
+            if i != len(body) - 1:
+                raise ValueError("statements after the final return")
+            return keys
+        if s["k"] == "IfStmt" and len(kids(s)) == 2:
+            c, op = rel(kids(s)[0])
+            ret = single_return(kids(s)[1])
+            if ret is None:
+                raise ValueError("if-arm is not a single return")
+            if op == "!=":
+                k2 = of_expr(kids(ret)[0])
+                if len(k2) != 1 or k2[0][0] != c:
+                    raise ValueError("tie-break arm returns a different component")
+                keys.append(k2[0])
+                i += 1
+                continue
+            if op in ("<", ">") and literal(kids(ret)[0]) is True and i + 1 < len(body) and body[i + 1]["k"] == "IfStmt":
+                c2, op2 = rel(kids(body[i + 1])[0])
+                ret2 = single_return(kids(body[i + 1])[1])
+                if c2 == c and op2 in ("<", ">") and op2 != op and ret2 is not None and literal(kids(ret2)[0]) is False:
+                    keys.append((c, op == "<"))
+                    i += 2
+                    continue
+            raise ValueError("unrecognised if shape: %s" % render(kids(s)[0], False))
+        raise ValueError("unrecognised statement %s" % s["k"])
+    raise ValueError("comparator falls off its end")
